@@ -580,3 +580,76 @@ async fn watch_membership_changes(
         last_network_set = new_network_set;
     }
 }
+
+#[cfg(datacake_verif)]
+/// Verification-only seams (compiled with `--cfg datacake_verif`).
+pub mod verif {
+    use std::borrow::Cow;
+    use std::collections::BTreeMap;
+
+    use tokio::sync::watch;
+    use tokio_stream::wrappers::WatchStream;
+
+    pub use crate::node::NodeMembership;
+    pub use crate::nodes_selector::verif::{script_rng, unscript_rng};
+    pub use crate::nodes_selector::{start_node_selector, NodeCycler};
+    use crate::{
+        Clock,
+        ClusterMember,
+        ClusterStatistics,
+        DatacakeHandle,
+        MembershipChange,
+        NodeId,
+        NodeSelectorHandle,
+        Nodes,
+        RpcNetwork,
+    };
+
+    /// Builds a node handle without starting the gossip layer. The returned sender
+    /// is the publishing side of the handle's membership-change channel.
+    pub fn new_handle(
+        me: ClusterMember,
+        clock: Clock,
+        network: RpcNetwork,
+        selector: NodeSelectorHandle,
+    ) -> (DatacakeHandle, watch::Sender<MembershipChange>) {
+        let (tx, membership_changes) = watch::channel(MembershipChange::default());
+        let handle = DatacakeHandle {
+            me: Cow::Owned(me),
+            clock,
+            network,
+            selector,
+            statistics: ClusterStatistics::default(),
+            membership_changes,
+        };
+        (handle, tx)
+    }
+
+    /// Installs a data-centre layout on the selector actor.
+    pub async fn set_nodes(
+        selector: &NodeSelectorHandle,
+        data_centers: BTreeMap<Cow<'static, str>, Nodes>,
+    ) {
+        selector.set_nodes(data_centers).await
+    }
+
+    /// Runs the real membership watcher over a caller-supplied channel of membership
+    /// snapshots (what the gossip layer publishes), until that channel closes.
+    pub async fn run_membership_watcher(
+        self_node_id: NodeId,
+        network: RpcNetwork,
+        selector: NodeSelectorHandle,
+        snapshots: watch::Receiver<NodeMembership>,
+        membership_changes_tx: watch::Sender<MembershipChange>,
+    ) {
+        crate::watch_membership_changes(
+            self_node_id,
+            network,
+            selector,
+            ClusterStatistics::default(),
+            WatchStream::new(snapshots),
+            membership_changes_tx,
+        )
+        .await
+    }
+}
